@@ -288,6 +288,49 @@ def run(ck, facts, tier):
     if ctrl == 0:
         ck.violation(R, "positive-control", "", "the explicit-return detector sees no `return` anywhere in chalk_solve::clauses: it has gone blind")
 
+    R = "C22.ATTRS-INDEPENDENT"
+    ck.rule(R, "K7 (control dependence): the attributes of an item are independent of each other in the grammar (`#[repr(C)]`, "
+               "`#[repr(packed)]`, `#[repr(u8)]`, the flag attributes), so in an item writer the test that decides whether one attribute "
+               "field of a *Repr / *Flags struct is printed is never nested inside the then- or else-branch of a test on ANOTHER field "
+               "of the same struct (`if repr.packed {..} else if let Some(t) = &repr.int {..}` drops the integer repr of a packed "
+               "enum; the text still parses, to a different program)")
+
+    def attr_fields(n_):
+        return {(x.get("adt"), x.get("n")) for x in walk(n_) if x.get("k") == "field" and
+                str(x.get("adt", "")).split("::")[-1].endswith(("Repr", "Flags"))}
+
+    def tests_in(n_):
+        for x in walk(n_):
+            if x.get("k") == "if":
+                yield x, x.get("cond"), [x.get("then"), x.get("else")]
+            elif x.get("k") == "match" and str(x.get("src", "")).startswith("Normal"):
+                yield x, x.get("scrut"), [a_.get("body") for a_ in x.get("arms", [])]
+    n_tests = 0
+    for item in ("ImplDatum", "TraitDatum", "AdtDatum", "FnDefDatum", "OpaqueTyDatum", "AssociatedTyDatum", "AssociatedTyValue"):
+        wb = facts.body(RENDER % item)
+        if wb is None or wb.thir is None:
+            continue
+        bad = None
+        for node, cond, branches in tests_in(facts.thir(RENDER % item)):
+            outer = attr_fields(cond)
+            if not outer:
+                continue
+            n_tests += 1
+            for br in branches:
+                if br is None:
+                    continue
+                for node2, cond2, _b in tests_in(br):
+                    inner = attr_fields(cond2)
+                    dep = {(a2, f2) for a2, f2 in inner for a1, f1 in outer if a1 == a2 and f1 != f2}
+                    if dep and not (inner & outer):
+                        bad = (node2, sorted(outer)[0], sorted(dep)[0])
+        if bad:
+            ck.violation(R, "%s:%s-under-%s" % (item, bad[2][1], bad[1][1]), wb.where(bad[0].get("ln")),
+                         "whether `%s` is written depends on `%s`: for some combination of attributes one of them is dropped" % (bad[2][1], bad[1][1]))
+        else:
+            ck.ok(R, "%s:attribute-tests-independent" % item)
+    ck.floor(R, "attribute-tests", n_tests, 3)
+
     R = "C22.NAME-INJECTIVE"
     ck.rule(R, "K1/K3: the writer gives different ids different names: IdAliasStore::alias_for_id_name looks the alias up by *id*, draws a "
                "new alias from a counter kept per *name* and advances that counter, and prints `name` for alias 0 and `name_<alias>` "
